@@ -123,7 +123,9 @@ impl Report {
         *self.histogram.entry(key.to_string()).or_insert(0) += 1;
     }
     pub fn violation(&mut self, key: &str, what: &str, replay: serde_json::Value) {
-        if self.violations.len() < 20 {
+        // at most 6 per key so that one (possibly known) finding cannot hide another
+        let same = self.violations.iter().filter(|v| v["key"] == key).count();
+        if same < 6 && self.violations.len() < 60 {
             self.violations.push(serde_json::json!({"key": key, "what": what, "replay": replay}));
         }
     }
